@@ -172,8 +172,11 @@ void gen_host_op(Rng& r, Plan& p, bool allow_run, int max_run) {
         p.add("dma", {(s64)r.below(8), (s64)r.below(0x7000), (s64)r.below(0x7000), (s64)r.range(1, 8)});
     } else if (x < 90) {
         p.add("mmior", {(s64)mmio_fields()[r.below(mmio_fields().size())].off});
-    } else if (x < 95) {
+    } else if (x < 93) {
         p.add("fw", {});
+    } else if (x < 96) {
+        // AHBM accessors with a burst that may be left half-filled
+        p.add("ahbm", {(s64)r.below(3), (s64)r.range(1, 2), (s64)r.below(2), (s64)r.range(1, 5), (s64)(0x20000000 + 4 * r.below(64)), (s64)(r.next() & 0xFFFF)});
     } else {
         p.add("audio", {(s64)(r.next() & 0xFFFF)});
     }
@@ -242,6 +245,25 @@ u64 apply_host_op(Box& b, FwConfig& fw, const Plan& plan, const Step& s, std::st
         if (s.op == "audio") {
             t.MMIOWrite(0x2C6, (u16)s.arg(0));
             return 0;
+        }
+        if (s.op == "ahbm") {
+            int burst = (int)(s.arg(0) % 3), unit = (int)(1 + s.arg(1) % 2);
+            bool write = s.arg(2) & 1;
+            t.MMIOWrite(0x0E2, (u16)(burst << 1 | unit << 4));
+            t.MMIOWrite(0x0E4, (u16)((write ? 1 : 0) << 8));
+            u64 acc = 0;
+            u32 a = (u32)s.arg(4);
+            for (s64 i = 0; i < std::min<s64>(s.arg(3), 8); ++i, a += (unit == 2 ? 4 : 2)) {
+                if (write) {
+                    if (unit == 2)
+                        t.AHBMWrite32(a, (u32)(s.arg(5) * 65537u + (u32)i));
+                    else
+                        t.AHBMWrite16(a, (u16)(s.arg(5) + i));
+                } else {
+                    acc = acc * 31 + (unit == 2 ? t.AHBMRead32(a) : t.AHBMRead16(a));
+                }
+            }
+            return acc & 0xFFFFFFFF;
         }
         if (s.op == "dma") { // small in-range DSP->DSP copy on channel c
             u16 c = (u16)(s.arg(0) & 7);
